@@ -231,6 +231,37 @@ def sign(db, rep):
                                 ok = False
                                 why = f"carried-in stock {v.family}[m-1] has the opposite sign to the month's supply"
                     rep.check(ok, rule, construct, why, loc=OPT, detail=str(c))
+    # stock ledgers without a supply term (months after the first): what is drawn from the stock - eaten, fed, turned into biofuel -
+    # stands with the end-of-month stock against the stock carried in; a use on the carried-in side would ADD to the stock
+    for t in db.templates:
+        if t.aborted or t.opt_type != "to_humans" or not t.entry.startswith("resource:"):
+            continue
+        for name, c in t.constraints:
+            if not isinstance(c, Cmp) or c.sense != "==":
+                continue
+            coeffs, const = c.expr.linear_in_vars()
+            ends = [v for v in coeffs if v.family.endswith("_end")]
+            starts = [v for v in coeffs if v.family.endswith("_start")]
+            if len(ends) + len(starts) < 2 or len(coeffs) < 3:
+                continue
+            # the stock after this month's uses: the `_end` variable with the later index (or the only one next to a `_start`)
+            def off(v):
+                return (v.idx.c if v.idx is not None and hasattr(v.idx, "c") else 0)
+            end_now = max(ends, key=off) if ends else None
+            carried = [v for v in ends if v is not end_now] + starts
+            if end_now is None or not carried:
+                continue
+            s_end = rat_sign(coeffs[end_now], ranges)
+            uses = [v for v in coeffs if v is not end_now and v not in carried]
+            bad = [v.family for v in uses if _opp(rat_sign(coeffs[v], ranges), s_end) or rat_sign(coeffs[v], ranges) is None]
+            bad_c = [v.family for v in carried if not _opp(rat_sign(coeffs[v], ranges), s_end)]
+            k = ("ledger-uses", t.entry, name, str(t.mc))
+            if k in seen or not uses:
+                continue
+            seen.add(k)
+            rep.check(not bad and not bad_c, rule, f"{t.entry}:{name}|uses-draw-the-stock-down|months{t.mc}",
+                      f"in this stock balance {bad or bad_c} stand on the wrong side: using more of the resource (for people, feed or biofuel) would leave "
+                      "MORE in the stock, so a larger charge feeds more people", loc=OPT, detail=str(c))
     # every to_humans family enters consumed_kcals with a positive coefficient
     for t in [x for x in db.templates if x.entry == "add_total_human_consumption_to_model" and not x.aborted][:]:
         for name, c in t.constraints:
